@@ -24,10 +24,10 @@ DEMO=$(ls "$M"/*_test.go 2>/dev/null | head -1)
 if [ -n "$DEMO" ]; then
   cp "$DEMO" cmd/calc/zz_demo_test.go
   if timeout 300 go test -count=1 ./cmd/calc/ >/tmp/d$TAG.log 2>&1; then echo "CONFIRM: demo PASSES with the change (useless)"; else echo "CONFIRM: demo fails with the change"; fi
-  git stash -q -- . ':!cmd/calc/zz_demo_test.go' 2>/dev/null || { git diff > /tmp/p$TAG.diff; git checkout -- . ; }
+  git apply -R "$M/patch.diff" 2>/dev/null || { cp cmd/calc/zz_demo_test.go /tmp/zz$TAG.go; git checkout -- . ; cp /tmp/zz$TAG.go cmd/calc/zz_demo_test.go; }
   if timeout 300 go test -count=1 ./cmd/calc/ >/tmp/d2$TAG.log 2>&1; then echo "CONFIRM: demo passes without the change"; else echo "CONFIRM: demo FAILS without the change"; tail -5 /tmp/d2$TAG.log; fi
   rm -f cmd/calc/zz_demo_test.go
-  git checkout -- . ; git stash drop -q 2>/dev/null
+  git checkout -- .
   git apply "$M/patch.diff" 2>/dev/null || git apply -3 "$M/patch.diff"
 fi
 mkdir -p "$OUT"
